@@ -1,6 +1,8 @@
 import FitProps.Go2LeanTimestamp
 import FitProps.Go2LeanRecordHeader
 import FitProps.Go2LeanLru
+import FitProps.Go2LeanProtoMarshal
+import FitProps.Go2LeanEncoderMesgDef
 /-!
 # C01 — tie of the compressed-timestamp arithmetic to the source by translation
 
@@ -107,5 +109,40 @@ theorem C01_go2lean_lru_resize (g : Go.encoderlru.lru) (size : Nat) (h0 : 0 < si
 
 /-- non-vacuity: three `Put`s into a new LRU of two entries — store, store, hit — run through both sides -/
 example : goLruRun ⟨[[], []], []⟩ [([1], []), ([2], [7]), ([1], [])] = some [(0, true), (1, true), (0, false)] := by decide
+
+/-! the bytes of a definition record and the header byte of a data record: proto/proto_marshal.go, translated as unit
+`protomarshal` (`FitModel/Generated/Go_protomarshal.lean`); `MessageDefinition.MarshalAppend` is translated WHOLE.
+PROPERTY THEOREMS (audited by ./check): C01_go2lean_def_marshal, C01_go2lean_def_wire, C01_go2lean_def_header,
+C01_go2lean_def_length, C01_go2lean_data_header -/
+
+theorem C01_go2lean_def_marshal (m : Go.protomarshal.MessageDefinition) (b : List Nat) :
+    Go.protomarshal.MessageDefinition.MarshalAppend m b = some (b ++ pmDefSpec m) := pm_def_marshal m b
+
+theorem C01_go2lean_def_wire (arch : Nat) (m : Fit.Wire.WMsg) (b : List Nat) :
+    Go.protomarshal.MessageDefinition.MarshalAppend (pmDefOf arch m) b = some (b ++ Fit.Wire.defBytes arch m) :=
+  pm_def_wire arch m b
+
+theorem C01_go2lean_def_header :
+    Go.protomarshal.MesgDefinitionMask = 0x40 ∧ Go.protomarshal.DevDataMask = 0x20 ∧
+    Go.protomarshal.LittleEndian = 0 ∧ Go.protomarshal.BigEndian = 1 ∧
+    (∀ h, (Go.protomarshal.NewMessageDefinition_devHeader h).mesgDef_Header = h ||| 0x20) ∧
+    (Go.protomarshal.NewMessageDefinition_devHeader Go.protomarshal.MesgDefinitionMask).mesgDef_Header = 0x60 := pm_def_header
+
+theorem C01_go2lean_def_length (m : Go.protomarshal.MessageDefinition) (b out : List Nat)
+    (h : Go.protomarshal.MessageDefinition.MarshalAppend m b = some out) :
+    out.length = b.length + 6 + 3 * m.FieldDefinitions.length +
+      (if m.Header &&& 32 = 32 then 1 + 3 * m.DeveloperFieldDefinitions.length else 0) := pm_def_length m b out h
+
+theorem C01_go2lean_data_header (b : List Nat) (hdr : Nat) (m : Fit.Wire.WMsg) :
+    (Go.protomarshal.Message_MarshalAppend_header b hdr).b = b ++ [hdr] ∧
+    (Go.protomarshal.Message_MarshalAppend_header [] hdr).b ++ Fit.Wire.payload m = hdr :: Fit.Wire.payload m :=
+  pm_data_header b hdr m
+
+/-! the same for the definition as the ENCODER builds it (encoder/encoder.go `newMessageDefinition`, unit `encodermesgdef`).
+PROPERTY THEOREMS (audited by ./check): C01_go2lean_enc_def_wire -/
+
+theorem C01_go2lean_enc_def_wire (h0 r0 a0 n0 arch : Nat) (m : Fit.Wire.WMsg) (b : List Nat) :
+    Go.protomarshal.MessageDefinition.MarshalAppend (pmEncDefOf h0 r0 a0 n0 arch m) b = some (b ++ Fit.Wire.defBytes arch m) :=
+  pm_enc_def_wire h0 r0 a0 n0 arch m b
 
 end Fit.C01
